@@ -194,7 +194,33 @@ def check(report: Report, repo: Repo) -> None:
         else:
             for par, idx in (("even", 2 * k), ("odd", 2 * k + 1)):
                 got = it.call_function(tau_fn, [idx, L], {})
-                ok = TM.expr_equal(got, ORACLE[par]) if isinstance(got, (sp.Basic, int)) else None
+                if isinstance(got, (sp.Basic, int)):
+                    ok = TM.expr_equal(got, ORACLE[par])
+                else:
+                    # the rule branches on a hyper-parameter (e.g. ratio <= 1 / > 1): every branch must be the closed form
+                    # where its guard holds -- an identity in all symbols proves it, a sample inside the guard refutes it
+                    ok = True
+                    for guard, leaf in TM.leaves(got):
+                        if not isinstance(leaf, (sp.Basic, int)):
+                            ok = None
+                            break
+                        if TM.expr_equal(leaf, ORACLE[par]) is True:
+                            continue
+                        verdict = None
+                        for rv in (sp.Rational(1, 3), sp.Rational(1, 2), sp.Integer(1), sp.Rational(3, 2), sp.Integer(2), sp.Integer(3)):
+                            for mv in (sp.Rational(1, 2), sp.Integer(1), sp.Integer(2)):
+                                sub = {r: rv, m: mv}
+                                try:
+                                    inside = all(bool(sp.sympify(c).subs(sub)) is pol for c, pol in guard if isinstance(c, sp.Basic))
+                                except Exception:
+                                    inside = False
+                                if not inside:
+                                    continue
+                                if TM.expr_equal(sp.sympify(leaf).subs(sub), ORACLE[par].subs(sub)) is False:
+                                    verdict = False
+                        ok = False if verdict is False else (None if ok is True else ok)
+                        if ok is False:
+                            break
                 report.add("R1-tau", f"{base}[index={'2k' if par == 'even' else '2k+1'}]", ok, f"tau at {par} index, symbolic k, L (total branches), m, r", fmt(got), fmt(ORACLE[par]))
             # defaults
             tau_def = it.run(rule)
@@ -259,6 +285,10 @@ def check(report: Report, repo: Repo) -> None:
             for kw, val in (("hidden_size", H), ("heads", h), ("is_causal", True)):
                 report.add("R2-stack-wiring", f"{cons}::kwargs", TM.term_equal(TM.term_of(o.attrs.get(kw)), val), f"layer keyword '{kw}' forwarded", fmt(o.attrs.get(kw)), fmt(val), nontrivial=False)
 
+    # (taus memoised in a module-level table under id(rule): the stack keeps no reference to an inline rule, so a later
+    # rule object can take over the id and inherit the previous rule's taus)
+    idc = [e for e in it2.events if e.kind == "identity-keyed-cache"]
+    report.add("R5-history", f"{MD}::TransformerStack.__init__::identity-keyed-cache", not idc, "no module-level table is keyed by id(<rule>) without holding the rule itself (an id is unique only among live objects)", [f"key {fmt(e['key'])} at {e.where}" for e in idc], [], nontrivial=False)
     # ---- R5 history independence: one rule object reused at several depths, in any order
     it5 = Interp(repo)
     rule5 = it5.get_global(CF, "transformer_residual_scaling_rule")
